@@ -8,6 +8,7 @@
 import Crs.Update
 import CrsProofs.Lines
 import Crs.Cli
+import Crs.Root
 namespace Crs.Props
 open Crs Crs.Update
 
@@ -239,5 +240,93 @@ theorem C18_all_same_grammar (name : Bytes) :
 
 example : Cli.ruleOfFileName b!"942100-chain256.ra" = some none ∧ Cli.ruleOfFileName b!"942100-chain255.ra" = some (some (b!"942100", 255))
     ∧ Cli.ruleOfFileName b!"942100-yaml" = none := by decide
+
+/-! ### root resolution (`findRootDirectory`) -/
+
+open Crs.Root in
+/-- **C18 (root).** The root a command works in is the NEAREST directory among the start directory and its ancestors
+    that holds `regex-assembly` (`q <:+ p`: `q` is `p` or an ancestor of `p`, components innermost first), the
+    file-system root itself excepted (`q ≠ []`: the loop never tests `/`). -/
+theorem C18_root_is_nearest (has : Dir → Bool) (p q : Dir) :
+    findRoot has p = some q ↔
+      (q ≠ [] ∧ q <:+ p ∧ has q = true ∧ ∀ q', q' <:+ p → q.length < q'.length → has q' = false) := by
+  induction p with
+  | nil =>
+    simp only [findRoot]
+    constructor
+    · intro h; simp at h
+    · intro ⟨hne, hs, _, _⟩
+      exact absurd (List.suffix_nil.mp hs) hne
+  | cons c up ih =>
+    simp only [findRoot]
+    by_cases hc : has (c :: up) = true
+    · simp only [hc, if_true, Option.some.injEq]
+      constructor
+      · intro h; subst h
+        refine ⟨by simp, List.suffix_refl _, hc, ?_⟩
+        intro q' hq' hl
+        have := hq'.length_le
+        omega
+      · intro ⟨_, hs, _, hfar⟩
+        rcases List.suffix_cons_iff.mp hs with h | h
+        · exact h.symm
+        · -- q is a proper ancestor: the start directory itself is nearer and holds regex-assembly
+          have h1 := hfar (c :: up) (List.suffix_refl _) (by have := h.length_le; simp; omega)
+          rw [hc] at h1; exact Bool.noConfusion h1
+    · have hc' : has (c :: up) = false := by simpa using hc
+      simp only [hc', Bool.false_eq_true, if_false]
+      rw [ih]
+      constructor
+      · intro ⟨hne, hs, hh, hfar⟩
+        refine ⟨hne, hs.trans (List.suffix_cons c up), hh, ?_⟩
+        intro q' hq' hl
+        rcases List.suffix_cons_iff.mp hq' with h | h
+        · rw [h]; exact hc'
+        · exact hfar q' h hl
+      · intro ⟨hne, hs, hh, hfar⟩
+        rcases List.suffix_cons_iff.mp hs with h | h
+        · rw [h, hc'] at hh; exact Bool.noConfusion hh
+        · exact ⟨hne, h, hh, fun q' hq' hl => hfar q' (hq'.trans (List.suffix_cons c up)) hl⟩
+
+open Crs.Root in
+/-- … and resolution fails exactly when no directory from the start directory upwards (below `/`) holds one -/
+theorem C18_root_none_iff (has : Dir → Bool) (p : Dir) :
+    findRoot has p = none ↔ ∀ q, q ≠ [] → q <:+ p → has q = false := by
+  induction p with
+  | nil =>
+    simp only [findRoot, true_iff]
+    intro q hne hs
+    exact absurd (List.suffix_nil.mp hs) hne
+  | cons c up ih =>
+    simp only [findRoot]
+    by_cases hc : has (c :: up) = true
+    · simp only [hc, if_true]
+      constructor
+      · intro h; simp at h
+      · intro h
+        have := h (c :: up) (by simp) (List.suffix_refl _)
+        rw [hc] at this; exact Bool.noConfusion this
+    · have hc' : has (c :: up) = false := by simpa using hc
+      simp only [hc', Bool.false_eq_true, if_false]
+      rw [ih]
+      constructor
+      · intro h q hne hs
+        rcases List.suffix_cons_iff.mp hs with e | e
+        · rw [e]; exact hc'
+        · exact h q hne e
+      · intro h q hne hs
+        exact h q hne (hs.trans (List.suffix_cons c up))
+
+open Crs.Root in
+/-- the start directory itself wins over every ancestor (an inner root shadows the outer one) -/
+theorem C18_root_self_first (has : Dir → Bool) (c : Bytes) (up : Dir) (h : has (c :: up) = true) :
+    findRoot has (c :: up) = some (c :: up) := by
+  simp [findRoot, h]
+
+open Crs.Root in
+example : findRoot (fun d => d == [b!"crs", b!"outer"] || d == [b!"inner", b!"x", b!"crs", b!"outer"])
+      [b!"er", b!"deep", b!"inner", b!"x", b!"crs", b!"outer"] = some [b!"inner", b!"x", b!"crs", b!"outer"]
+    ∧ findRoot (fun d => d == [b!"crs", b!"outer"]) [b!"rules", b!"crs", b!"outer"] = some [b!"crs", b!"outer"]
+    ∧ findRoot (fun _ => false) [b!"rules", b!"crs"] = none := by decide
 
 end Crs.Props
